@@ -346,5 +346,73 @@ def lift_locstream(beh, idx):
             if a == "read":
                 ops.append({"op": "it_next", "it": 10 * seg + 3, "model_exp": p + 1})
         ops.append({"op": "it_next", "it": 10 * seg + 3, "model_exp": -1})
+    # single-segment identity (C17): merging the merged segment alone, without deletions, changes nothing observable
+    ops += [{"op": "merge", "file": 3, "in": [2], "drops": [{"kind": "nil"}], "mode": 0, "buf": 64},
+            {"op": "load", "file": 3, "seg": 3, "backing": "mem"},
+            {"op": "pl_open", "seg": 3, "field": "g000", "term": B("t"), "pl": 40},
+            {"op": "it_open", "pl": 40, "it": 41, "freq": True, "norm": True, "locs": True}]
+    ops += [{"op": "it_next", "it": 41} for _ in range(len(plan) + 1)]
+    ops.append({"op": "same_obs", "in": [2, 3]})
     return {"name": "E2-loc-%d" % idx, "norm": "code", "universe": ["_id", "g000", "g126", "g127"], "batches": [batch], "ops": ops,
             "tags": ["e2loc"]}
+
+
+def lift_ctxreader(beh, idx):
+    """CtxReader visit sequence -> stored visits (with early stops) on a segment whose documents store 0, 1, 2, 3
+    values; on the built segment, the loaded one, and through a merge that re-encodes (one shared context)."""
+    batch = []
+    for d, nv in enumerate(beh["vals"]):
+        doc = [{"name": "_id", "len": 1, "stored": False, "value": [], "dv": False, "terms": [{"term": B("d%d" % d), "freq": 1, "locs": []}]}]
+        for k in range(nv):
+            doc.append({"name": "s%d" % (k % 2), "len": 1, "stored": True, "value": B("v%d-%d" % (d, k)), "dv": False,
+                        "terms": [{"term": B("x"), "freq": 1, "locs": []}]})
+        batch.append(doc)
+    ops = [{"op": "build", "seg": 1, "batch": 0, "mode": 0}, {"op": "persist", "seg": 1, "file": 1},
+           {"op": "load", "file": 1, "seg": 2, "backing": "file" if idx % 2 else "mem"}]
+    for seg in (1, 2):
+        for h in beh["hist"]:
+            ops.append({"op": "stored", "seg": seg, "n": h["doc"] - 1, "stop": h["stop"]})
+    # a stopped visit right before a merge that re-encodes the stored fields (deletion -> one context for all documents)
+    ops += [{"op": "stored", "seg": 1, "n": 3, "stop": 1},
+            {"op": "merge", "file": 2, "in": [1], "drops": [{"kind": "set", "docs": [2]}], "mode": 0, "buf": 64},
+            {"op": "load", "file": 2, "seg": 3, "backing": "mem"}]
+    ops += [{"op": "stored", "seg": 3, "n": n} for n in range(4)]
+    return {"name": "E2-ctx-%d" % idx, "norm": "code", "universe": ["_id", "s0", "s1"], "batches": [batch], "ops": ops, "tags": ["e2ctx"]}
+
+
+def lift_termloop(beh, idx):
+    """MergeTermLoop configuration -> input segments whose field f has exactly the modelled (term, document) postings
+    (term 0 = the empty term), merged with the modelled deletions in the default and in small chunk modes, merged
+    again (1-hit inputs), everything observed in full."""
+    tbytes = {0: [], 1: B("a"), 2: B("b")}
+    batches = []
+    for s, post in enumerate(beh["post"]):
+        n = beh["segdocs"][s]
+        batch = []
+        for d in range(n):
+            doc = [id_inst(100 * s + d)]
+            terms = []
+            for t in sorted(post, key=int):
+                a = post[t][str(d)] if isinstance(post[t], dict) else post[t][d]
+                if a["freq"] == 0:
+                    continue
+                locs = [{"field": "", "pos": 1 + d, "start": 0, "end": 2}] if a["locs"] else []
+                terms.append({"term": tbytes[int(t)], "freq": a["freq"], "locs": locs})
+            if terms:
+                doc.append({"name": "f", "len": sum(x["freq"] for x in terms), "stored": False, "value": [], "dv": idx % 2 == 0,
+                            "terms": terms})
+            batch.append(doc)
+        batches.append(batch)
+    k = len(batches)
+    ops = [{"op": "build", "seg": s + 1, "batch": s, "mode": [0, 1, 2][(idx + s) % 3]} for s in range(k)]
+    drops = [{"kind": "set", "docs": d} if d else {"kind": "nil"} for d in beh["drops"]]
+    ops += [{"op": "merge", "file": 10, "in": list(range(1, k + 1)), "drops": drops, "mode": 0, "buf": 64},
+            {"op": "load", "file": 10, "seg": 10, "backing": "mem"},
+            {"op": "merge", "file": 11, "in": list(range(1, k + 1)), "drops": drops, "mode": [1, 2, 1024][idx % 3], "buf": 64},
+            {"op": "load", "file": 11, "seg": 11, "backing": "file" if idx % 2 else "mem"},
+            # merged again: the inputs now carry 1-hit values
+            {"op": "merge", "file": 12, "in": [10, 11], "drops": [{"kind": "nil"}, {"kind": "nil"}], "mode": 0, "buf": 64},
+            {"op": "load", "file": 12, "seg": 12, "backing": "mem"}]
+    ops += [{"op": "observe", "seg": h, "level": "full"} for h in (10, 11, 12)]
+    return {"name": "E2-termloop-%d" % idx, "norm": "code", "universe": ["_id", "f"], "batches": batches, "ops": ops,
+            "tags": ["e2termloop"] + (["termloop_onehit"] if any(w["onehit"] for w in beh["written"]) else [])}
